@@ -55,6 +55,22 @@ RECIPES = [
     ("C01", "break", ["C01-R7"], "pyyeti/ode/_base_ode_class.py", "                krf = k[self.rf]\n                k = k[self.nonrf]", "                krf = k[self.nonrf]\n                k = k[self.nonrf]", "rf stiffness taken from the non-rf rows"),
     ("C01", "break", ["C01-R7"], "pyyeti/ode/_utilities.py", "        ibm = 1 / beta if m is None else 1 / (beta * m[pvvelo])", "        ibm = 1 / beta if m is None else 1 / (beta * m[pvdisp])", "mass of another mode in the damped rigid-body coefficients"),
     ("C01", "neutral", [], "pyyeti/ode/_base_ode_class.py", "        el[self.nonrf[_el]] = True", "        el_full = self.nonrf[_el]\n        el[el_full] = True", "temporary for the composed index"),
+    ("C01", "break", ["C01-R8"], "pyyeti/ode/solveexp1.py", "                d0 = d[:, j] = E @ d0 + PQF[:, j - 1]", "                d0 = d[:, j] = E @ d0 + PQF[:, j]", "SolveExp1: force term of the next interval"),
+    ("C01", "break", ["C01-R8"], "pyyeti/ode/solveexp1.py", "                PQF = self.P @ force[:, :-1] + self.Q @ force[:, 1:]", "                PQF = self.P @ force[:, :-1] + self.Q @ force[:, :-1]", "SolveExp1: Q multiplies the wrong sample"),
+    ("C01", "break", ["C01-R8"], "pyyeti/ode/solveexp1.py", "            E, P, Q = expmint.getEPQ(A, h, order)", "            E, P, Q = expmint.getEPQ(A, h)", "SolveExp1: hold order not forwarded"),
+    ("C01", "break", ["C01-R8"], "pyyeti/ode/solveexp1.py", "v=force + self.A @ d", "v=force - self.A @ d", "SolveExp1: returned derivative"),
+    ("C01", "neutral", [], "pyyeti/ode/solveexp1.py", "                d0 = d[:, j] = E @ d0 + PQF[:, j - 1]", "                nxt = PQF[:, j - 1] + E @ d0\n                d[:, j] = nxt\n                d0 = nxt", "SolveExp1: temporary, commuted"),
+    ("C01", "break", ["C01-R9"], "pyyeti/ode/solveexp2.py", "                    D[:, i + 1] = E_dd @ d0 + E_dv @ v0 + PQF[ksize:, i]", "                    D[:, i + 1] = E_dd @ d0 - E_dv @ v0 + PQF[ksize:, i]", "SolveExp2: sign of the velocity coupling"),
+    ("C01", "break", ["C01-R9"], "pyyeti/ode/solveexp2.py", "                    V[:, i + 1] = E_vd @ d0 + E_vv @ v0 + PQF[:ksize, i]", "                    V[:, i + 1] = E_vd @ d0 + E_vv @ v0 + PQF[ksize:, i]", "SolveExp2: force half of the displacement rows used for velocity"),
+    ("C01", "break", ["C01-R9"], "pyyeti/ode/solveexp2.py", "                    PQF = self.P @ imf[:, :-1] + self.Q @ imf[:, 1:]", "                    PQF = self.P @ imf[:, 1:] + self.Q @ imf[:, :-1]", "SolveExp2: P and Q samples swapped"),
+    ("C01", "break", ["C01-R9", "C01-R3"], "pyyeti/ode/solveexp2.py", "            self.E_dv = E[ksize:, :ksize].copy()", "            self.E_dv = E[:ksize, ksize:].copy()", "SolveExp2: block taken from the transposed position"),
+    ("C01", "break", ["C01-R9"], "pyyeti/ode/solveexp2.py", "            E, P, Q = expmint.getEPQ(A, h, order, half=True)", "            E, P, Q = expmint.getEPQ(A, h, order)", "SolveExp2: full-width P, Q"),
+    ("C01", "break", ["C01-R9"], "pyyeti/ode/solveexp2.py", "                    imf = self.invm * force[kdof]", "                    imf = force[kdof]", "SolveExp2: mass not applied on the diagonal path"),
+    ("C01", "neutral", [], "pyyeti/ode/solveexp2.py", "                    D[:, i + 1] = E_dd @ d0 + E_dv @ v0 + PQF[ksize:, i]", "                    d_next = E_dv @ v0 + E_dd @ d0\n                    D[:, i + 1] = d_next + PQF[ksize:, i]", "SolveExp2: temporary"),
+    ("C01", "break", ["C01-R10"], "pyyeti/ode/solveunc.py", "            pc.F,\n            pc.G,\n            pc.A,\n            pc.B,\n            pc.Fp,", "            pc.F,\n            pc.G,\n            pc.B,\n            pc.A,\n            pc.Fp,", "A and B handed over in each other's place"),
+    ("C01", "break", ["C01-R10"], "pyyeti/ode/solveunc.py", "            V[:, i] = vi = Fp * di + Gp * vi + ABFpi\n            D[:, i] = di = din\n            fki = fki1", "            V[:, i] = vi = Fp * di + Gp * vi + ABFpi\n            D[:, i] = di = din", "order 1: the previous force sample is never advanced"),
+    ("C01", "break", ["C01-R10"], "pyyeti/ode/solveunc.py", "        AB = A + B\n        ABp = Ap + Bp", "        AB = A + B\n        ABp = Ap - Bp", "order 0: velocity force coefficient"),
+    ("C01", "neutral", [], "pyyeti/ode/solveunc.py", "            ABFi = A * fki + B * fki1\n            ABFpi = Ap * fki + Bp * fki1\n            din = F * di + G * vi + ABFi", "            din = G * vi + F * di + (B * fki1 + A * fki)\n            ABFpi = Bp * fki1 + Ap * fki", "order 1: temporaries removed, commuted"),
     # ---- C02
     ("C02", "break", ["C02-R1"], "pyyeti/ode/solveunc.py", "                    - self.m[_el][:, None] @ fw2\n", "                    + self.m[_el][:, None] @ fw2\n", "mass term sign"),
     ("C02", "break", ["C02-R2"], "pyyeti/ode/solveunc.py", "            a[el] = d[el] * -(freqw2)", "            a[el] = d[el] * (freqw2)", "a = -W^2 d sign"),
